@@ -23,6 +23,11 @@ Property clause → theorem
                                   (68 copies: lend migration 26, liquidity 22, collector 17, auction 3; 19 of them id fields) — no exception on the current tree
       `C20.counters_exact_full`   every id counter / length key is restored from a stored genesis value
       `C20.fields_used_full`      every genesis field ExportGenesis fills is looked at by InitGenesis
+      `C20.migrate_fresh_id`      registered store migrations (x/lend 2→3, x/rewards 2→3 decode-and-rewrite live records): a loop that
+                                  decodes every record into a fresh struct and re-encodes it keeps every well-formed record;
+                                  `C20.migrate_shared_counterexample` the loop AS WRITTEN in x/lend (one struct declared before the loop, the
+                                  generated Unmarshal does not reset it) does not — finding M1, replayed by TestC20Migrations
+                                  (`migration_keeps:*`, `migration_continuation:*`); `C20.migrate_shared_id_partial` what it does keep
       These are FALSE of the unchanged tree; each is stated at full strength over the table minus the explicit lists
       `knownGaps` (reproduced on the real code by the harness, see notes/C20.md), `suspectedGaps` (visible in the source,
       the writing transition could not be driven in the harness), `historyAllowList`; any NEW gap breaks the proof, and
@@ -359,7 +364,7 @@ theorem validate_keys_pinned : (modules.map fun m => m.validateKeys.length) = [0
       ("Orders", ["AppId"], ["PairId", "Id"], ["AppId", "PairId", "Id"]) ∈ m.validateKeys) := by decide
 
 /-- **Export / import helpers copy ids faithfully.** Every id field of a record that a function on the ExportGenesis or InitGenesis
-path constructs field by field (keyed composite literal or `rec.F = …` of a module record type) is fed from the same-named id, or
+path (or in the file of a registered store migrator) constructs field by field (keyed composite literal or `rec.F = …` of a module record type) is fed from the same-named id, or
 from the `Id` of the object the field names (`PoolId` from `pool.Id`, never from `pool.PairId` / `pool.AppId`); an id taken from a
 call is taken from a getter of that very id (`LastPairId` from `GetLastPairID`). No exception on the current tree. -/
 theorem export_helpers_copy_ids_faithfully : idCopyGaps modules = [] := by decide
@@ -369,7 +374,8 @@ theorem export_helpers_copy_ids_faithfully : idCopyGaps modules = [] := by decid
 theorem export_helpers_copy_fields_by_name : nameCopyGaps modules = [] := by decide
 
 /-- the field copies found (liquidity: the per-app genesis state and the farmer records rebuilt by
-`GetActiveAndQueuedFarmersForGenesis`; collector and auction: the records the genesis setters rebuild) -/
+`GetActiveAndQueuedFarmersForGenesis`; collector and auction: the records the genesis setters rebuild; lend: the records the 2→3
+migration rebuilds) -/
 theorem copies_pinned : (modules.map fun m => m.copies.length) = [0, 0, 26, 17, 0, 0, 3, 0, 0, 22, 0, 0, 0, 0, 0] ∧
     (modules.map fun m => (m.copies.filter copyIdLike).length) = [0, 0, 4, 6, 0, 0, 2, 0, 0, 7, 0, 0, 0, 0, 0] ∧
     (∃ m ∈ modules, m.name = "liquidity" ∧
